@@ -96,8 +96,20 @@ def main():
             cenv = dict(os.environ)
             cenv["VERIF_REPO"] = wt
             cenv["VERIF_SEED"] = a.seed
+            cenv["VERIF_EVIDENCE_DIR"] = wt + ".evidence"
+            # generated Lean tables are rewritten from the worktree: put the /repo versions back afterwards
+            gdir = os.path.join(ROOT, "lean", "Verif", c)
+            saved = {}
+            for fn in os.listdir(gdir) if os.path.isdir(gdir) else []:
+                if fn.startswith("Generated"):
+                    saved[fn] = open(os.path.join(gdir, fn)).read()
             t0 = time.time()
-            rc, out = sh([os.path.join(ROOT, "check"), c, "--tier", a.tier], cwd=ROOT, env=cenv, timeout=7200)
+            try:
+                rc, out = sh([os.path.join(ROOT, "check"), c, "--tier", a.tier], cwd=ROOT, env=cenv, timeout=7200)
+            finally:
+                for fn, txt in saved.items():
+                    open(os.path.join(gdir, fn), "w").write(txt)
+                shutil.rmtree(wt + ".evidence", ignore_errors=True)
             vl = [l for l in out.splitlines() if l.startswith("VIOLATION")]
             res["checks"][c] = {"rc": rc, "violations": vl, "wall_s": round(time.time() - t0),
                                 "comments": [l for l in out.splitlines() if l.startswith("# ")][:8]}
